@@ -1,4 +1,5 @@
 import DaskModel.Lemmas.Match
+import DaskModel.Lemmas.MatchComplete
 /-!
 # C51 — term-rewrite matching is sound and complete
 
@@ -45,6 +46,97 @@ example :
        ⟨.app 1 [.atom (.const 100), .atom (.const 100)], .app 3 [.atom (.const 100)], [.const 100]⟩]
       (.app 1 [.atom (.const 1), .atom (.const 1)])
     = some [(0, [(.const 100, .atom (.const 1))]), (1, [(.const 100, .atom (.const 1))])] := by decide
+
+/-- **match_terminates.** `_match` never needs more than `fuelFor net = 2·(Σ|path|+1)+3` iterations: `iter_matches`
+always returns (the model never runs out of fuel), for every rule set and every term. -/
+theorem match_terminates (rules : List Rule) (term : Term) : ∃ ms, iterMatches rules term = some ms := by
+  unfold iterMatches
+  simp only [matchLoop_walk]
+  exact ⟨_, rfl⟩
+
+/-- **match_complete.** For *every* rule set and term (no arity discipline assumed): if rule `i` is well formed (no
+head of a compound sub-pattern is declared a variable) and `σ(lhs_i) = term`, then `iter_matches` yields rule `i`
+with a substitution that agrees with `σ` on every variable of the left-hand side. -/
+theorem match_complete (rules : List Rule) (term : Term) (i : Nat) (r : Rule) (σ : Subst)
+    (hr : rules[i]? = some r) (hwf : headsOk r.vars r.lhs = true)
+    (hinst : instPattern r.vars σ r.lhs = some term) :
+    ∃ ms σ', iterMatches rules term = some ms ∧ (i, σ') ∈ ms ∧ ∀ v ∈ r.varlist, σ'.get v = σ.get v := by
+  -- the loop is the walk
+  have hloop := matchLoop_walk (Net.ofRules rules) term
+  -- the rule's path consumes the term with the bindings read off σ
+  have hpm : PathMatch r.path [term] (bindsOf r.vars σ r.lhs) := by
+    have := pathMatch_of_inst r.vars σ r.lhs term hwf hinst [] [] [] PathMatch.nil
+    simpa [Rule.path, edgesOf] using this
+  obtain ⟨y, hy, hiy, hy2⟩ := (walk_spec (Net.ofRules rules) [term] [] i (bindsOf r.vars σ r.lhs)).mpr
+    ⟨r.path, _, mem_ofRules rules i r hr, hpm, by simp⟩
+  -- `_process_match` rebuilds σ on the variables of the lhs
+  have hspec : r.varlist.map σ.get = (bindsOf r.vars σ r.lhs).map some := bindsOf_spec r.vars σ r.lhs term hwf hinst
+  have hlen : r.varlist.length = (bindsOf r.vars σ r.lhs).length := by
+    have := congrArg List.length hspec
+    simpa using this
+  have hpt : ∀ j (hj : j < r.varlist.length) (hj' : j < (bindsOf r.vars σ r.lhs).length),
+      σ.get r.varlist[j] = some (bindsOf r.vars σ r.lhs)[j] := by
+    intro j hj hj'
+    have := congrArg (fun l => l[j]?) hspec
+    simpa [hj, hj'] using this
+  obtain ⟨σ', hgo, hsub, hall, _⟩ := processGo_complete σ r.varlist _ [] hlen hpt (by intro v t h; simp [Subst.get] at h)
+  have hagree : ∀ v ∈ r.varlist, σ'.get v = σ.get v := by
+    intro v hv
+    have := hall v hv
+    cases hg : σ'.get v with
+    | none => rw [hg] at this; cases this
+    | some t => exact (hsub v t hg).symm
+  have hverify : instantiates r.vars σ' r.lhs term = true := by
+    rw [instantiates_iff, instPattern_congr r.vars σ σ' r.lhs (by intro v hv; exact hagree v hv)]
+    exact hinst
+  refine ⟨candidates rules term (walk (Net.ofRules rules) [term] []), σ', ?_, ?_, hagree⟩
+  · unfold iterMatches
+    simp only [hloop, Option.map_some]
+  · unfold candidates
+    simp only [List.mem_flatMap, List.mem_filterMap]
+    refine ⟨y, hy, i, hiy, ?_⟩
+    have hpmatch : processMatch r.varlist y.2 = some (some σ') := by
+      rw [hy2]
+      unfold processMatch
+      simp [hlen, hgo]
+    simp [hr, hpmatch, hverify]
+
+/-- non-vacuity of `match_complete` without any arity discipline: `f` is used with one and with two arguments, the
+two-argument rule is found for `(f, (g, 1), 3)` (the code before the fix raised `IndexError` on this rule set). -/
+example :
+    let rules : List Rule :=
+      [⟨.app 1 [.atom (.const 100)], .atom (.const 0), [.const 100]⟩,
+       ⟨.app 1 [.atom (.const 100), .atom (.const 101)], .atom (.const 0), [.const 100, .const 101]⟩]
+    headsOk [.const 100, .const 101] (.app 1 [.atom (.const 100), .atom (.const 101)]) = true ∧
+    iterMatches rules (.app 1 [.app 2 [.atom (.const 1)], .atom (.const 3)])
+      = some [(1, [(.const 100, .app 2 [.atom (.const 1)]), (.const 101, .atom (.const 3))])] := by decide
+
+/-- **rewrite_applies_iff.** A top-level rewrite returns `σ(rhs)` of the first yielded rule; it leaves the term
+unchanged exactly when nothing is yielded — and by `match_complete` that happens only if no well-formed rule has an
+instance equal to the term. -/
+theorem rewrite_applies_iff (rules : List Rule) (term : Term) :
+    ∃ ms, iterMatches rules term = some ms ∧
+      ((ms = [] ∧ rewriteTop rules term = some term ∧
+          ∀ (i : Nat) (r : Rule) (σ : Subst), rules[i]? = some r → headsOk r.vars r.lhs = true →
+            instPattern r.vars σ r.lhs ≠ some term) ∨
+       (∃ i σ rest r, ms = (i, σ) :: rest ∧ rules[i]? = some r ∧ instPattern r.vars σ r.lhs = some term ∧
+          rewriteTop rules term = some (substitute σ r.rhs))) := by
+  obtain ⟨ms, hms⟩ := match_terminates rules term
+  refine ⟨ms, hms, ?_⟩
+  cases ms with
+  | nil =>
+    left
+    refine ⟨rfl, by simp [rewriteTop, hms], ?_⟩
+    intro i r σ hr hwf hinst
+    obtain ⟨ms', σ', h1, h2, _⟩ := match_complete rules term i r σ hr hwf hinst
+    rw [hms] at h1
+    cases h1
+    cases h2
+  | cons m rest =>
+    right
+    obtain ⟨i, σ⟩ := m
+    obtain ⟨r, hr, hinst⟩ := match_sound rules term _ i σ hms (List.mem_cons_self)
+    exact ⟨i, σ, rest, r, rfl, hr, hinst, by simp [rewriteTop, hms, hr]⟩
 
 /-! ### the code before the fixes (DESIGN.md §6 #12) -/
 
